@@ -5,7 +5,9 @@ SEED=$1; ID=$2; TIER=${3:-quick}
 cd /verif
 if ! git -C /repo diff --quiet; then echo "/repo working tree is dirty; refusing"; exit 2; fi
 git -C /repo apply $(readlink -f $SEED/patch.diff) || { echo "patch does not apply"; exit 2; }
+cp evidence/$ID.json /tmp/evidence-$ID.bak 2>/dev/null
 OUT=$(./check $ID --tier $TIER 2>&1); RC=$?
+cp /tmp/evidence-$ID.bak evidence/$ID.json 2>/dev/null; rm -f /tmp/evidence-$ID.bak
 git -C /repo checkout -- .
 echo "$OUT" | grep -E "^(VIOLATION|  why|KNOWN|HARNESS|$ID )" | head -8
 if [ $RC = 1 ]; then echo "RESULT $(basename $SEED) vs $ID: DETECTED"; elif [ $RC = 0 ]; then echo "RESULT $(basename $SEED) vs $ID: MISSED"; else echo "RESULT $(basename $SEED) vs $ID: HARNESS-ERROR rc=$RC"; echo "$OUT" | tail -20; fi
